@@ -27,6 +27,7 @@ type SliceV struct {
 	Obj  int // 0 = nil slice
 	Path []Step
 	Off  int
+	OffT *Term // additional symbolic offset (nil = 0)
 	Len  *Term
 	Cap  int
 	Elem types.Type
@@ -36,6 +37,55 @@ type SliceV struct {
 type StrV struct {
 	Conc string
 	Sym  []*Term
+	Segs []Seg // segment form: concrete text and decimal renderings of int terms
+}
+
+// Seg is a piece of a segment string: literal text, or the plain decimal
+// rendering (%d) of a non-negative integer term.
+type Seg struct {
+	Text string
+	Dec  *Term
+}
+
+func (e *Exec) mkSegs(in []Seg) *StrV {
+	var out []Seg
+	for _, sg := range in {
+		if sg.Dec != nil {
+			if k, ok := sg.Dec.ConstInt(); ok {
+				sg = Seg{Text: fmt.Sprintf("%d", k)}
+			}
+		}
+		if sg.Dec == nil {
+			if sg.Text == "" {
+				continue
+			}
+			if n := len(out); n > 0 && out[n-1].Dec == nil {
+				out[n-1].Text += sg.Text
+				continue
+			}
+		}
+		out = append(out, sg)
+	}
+	if len(out) == 0 {
+		return &StrV{}
+	}
+	if len(out) == 1 && out[0].Dec == nil {
+		return &StrV{Conc: out[0].Text}
+	}
+	return &StrV{Segs: out}
+}
+
+func (e *Exec) segsOf(s *StrV) []Seg {
+	if s.Segs != nil {
+		return s.Segs
+	}
+	if s.Sym != nil {
+		panic(&UnsupportedErr{Msg: "mixing byte-symbolic and segment strings"})
+	}
+	if s.Conc == "" {
+		return nil
+	}
+	return []Seg{{Text: s.Conc}}
 }
 
 type StrIte struct {
@@ -232,11 +282,22 @@ func (e *Exec) valEq(a, b Val) bool {
 		return ok && e.ptrEq(x, y)
 	case *SliceV:
 		y, ok := b.(*SliceV)
-		return ok && x.Obj == y.Obj && x.Off == y.Off && x.Cap == y.Cap && x.Len == y.Len && pathEq(x.Path, y.Path)
+		return ok && x.Obj == y.Obj && x.Off == y.Off && x.OffT == y.OffT && x.Cap == y.Cap && x.Len == y.Len && pathEq(x.Path, y.Path)
 	case *StrV:
 		y, ok := b.(*StrV)
 		if !ok {
 			return false
+		}
+		if x.Segs != nil || y.Segs != nil {
+			if len(x.Segs) != len(y.Segs) {
+				return false
+			}
+			for i := range x.Segs {
+				if x.Segs[i] != y.Segs[i] {
+					return false
+				}
+			}
+			return true
 		}
 		if x.Sym == nil && y.Sym == nil {
 			return x.Conc == y.Conc
@@ -354,6 +415,29 @@ func (e *Exec) mergeVal(c *Term, a, b Val) Val {
 			return a
 		}
 		if xs, ok := a.(*StrV); ok {
+			if ys, ok := b.(*StrV); ok && (xs.Segs != nil || ys.Segs != nil) {
+				sx, sy := e.segsOf(xs), e.segsOf(ys)
+				same := len(sx) == len(sy)
+				for i := 0; same && i < len(sx); i++ {
+					if (sx[i].Dec == nil) != (sy[i].Dec == nil) || (sx[i].Dec == nil && sx[i].Text != sy[i].Text) {
+						same = false
+					}
+				}
+				if same {
+					out := make([]Seg, len(sx))
+					for i := range sx {
+						if sx[i].Dec == nil {
+							out[i] = sx[i]
+						} else {
+							out[i] = Seg{Dec: e.S.Ite(c, sx[i].Dec, sy[i].Dec)}
+						}
+					}
+					return &StrV{Segs: out}
+				}
+				return &StrIte{C: c, A: a, B: b}
+			}
+		}
+		if xs, ok := a.(*StrV); ok {
 			if ys, ok := b.(*StrV); ok {
 				xb, yb := e.strBytes(xs), e.strBytes(ys)
 				if len(xb) == len(yb) {
@@ -369,7 +453,18 @@ func (e *Exec) mergeVal(c *Term, a, b Val) Val {
 	case *SliceV:
 		y, ok := b.(*SliceV)
 		if ok && x.Obj == y.Obj && x.Off == y.Off && x.Cap == y.Cap && pathEq(x.Path, y.Path) {
-			return &SliceV{Obj: x.Obj, Path: x.Path, Off: x.Off, Cap: x.Cap, Elem: x.Elem, Len: e.S.Ite(c, x.Len, y.Len)}
+			offT := x.OffT
+			if x.OffT != y.OffT {
+				xo, yo := x.OffT, y.OffT
+				if xo == nil {
+					xo = e.S.Int(0)
+				}
+				if yo == nil {
+					yo = e.S.Int(0)
+				}
+				offT = e.S.Ite(c, xo, yo)
+			}
+			return &SliceV{Obj: x.Obj, Path: x.Path, Off: x.Off, OffT: offT, Cap: x.Cap, Elem: x.Elem, Len: e.S.Ite(c, x.Len, y.Len)}
 		}
 		return &Poison{Why: "merge of different slices"}
 	case TupleV:
@@ -422,6 +517,9 @@ func (e *Exec) mkStr(bs []*Term) *StrV {
 }
 
 func (e *Exec) strBytes(s *StrV) []*Term {
+	if s.Segs != nil {
+		panic(&UnsupportedErr{Msg: "byte access to a segment string (decimal rendering of a symbolic integer)"})
+	}
 	if s.Sym != nil {
 		return s.Sym
 	}
@@ -433,6 +531,9 @@ func (e *Exec) strBytes(s *StrV) []*Term {
 }
 
 func strLen(s *StrV) int {
+	if s.Segs != nil {
+		panic(&UnsupportedErr{Msg: "length of a segment string"})
+	}
 	if s.Sym != nil {
 		return len(s.Sym)
 	}
@@ -450,6 +551,19 @@ func (e *Exec) strMap(v Val, f func(*StrV) Val) Val {
 	return &Poison{Why: fmt.Sprintf("string op on %T", v)}
 }
 
+// strMapC is strMap with the condition under which each alternative is the actual value.
+func (e *Exec) strMapC(v Val, cond *Term, f func(*StrV, *Term) Val) Val {
+	switch x := v.(type) {
+	case *StrV:
+		return f(x, cond)
+	case *StrIte:
+		a := e.strMapC(x.A, e.S.And(cond, x.C), f)
+		b := e.strMapC(x.B, e.S.And(cond, e.S.Not(x.C)), f)
+		return e.mergeVal(x.C, a, b)
+	}
+	return &Poison{Why: fmt.Sprintf("string op on %T", v)}
+}
+
 func (e *Exec) strEq(a, b Val) *Term {
 	switch x := a.(type) {
 	case *StrIte:
@@ -460,8 +574,28 @@ func (e *Exec) strEq(a, b Val) *Term {
 		return e.S.Ite(y.C, e.strEq(a, y.A), e.strEq(a, y.B))
 	}
 	x, y := a.(*StrV), b.(*StrV)
-	if x.Sym == nil && y.Sym == nil {
+	if x.Sym == nil && y.Sym == nil && x.Segs == nil && y.Segs == nil {
 		return e.S.Bool(x.Conc == y.Conc)
+	}
+	if x.Segs != nil || y.Segs != nil {
+		sx, sy := e.segsOf(x), e.segsOf(y)
+		if len(sx) != len(sy) {
+			panic(&UnsupportedErr{Msg: "comparison of segment strings of different shape"})
+		}
+		var cs []*Term
+		for i := range sx {
+			if (sx[i].Dec == nil) != (sy[i].Dec == nil) {
+				panic(&UnsupportedErr{Msg: "comparison of segment strings of different shape"})
+			}
+			if sx[i].Dec == nil {
+				if sx[i].Text != sy[i].Text {
+					return e.S.False
+				}
+			} else {
+				cs = append(cs, e.S.Eq(sx[i].Dec, sy[i].Dec))
+			}
+		}
+		return e.S.And(cs...)
 	}
 	xb, yb := e.strBytes(x), e.strBytes(y)
 	if len(xb) != len(yb) {
